@@ -363,7 +363,11 @@ func c10cellRun(a []string) string {
 			// failed (a cancellation racing with that hand-over is a separate, recorded finding): wait for the first
 			// protocol broadcast and then for 400 ms without another one
 			mt := c10msgType(kind)
-			ran = waitUntil(c9wait, func() bool { return nd.ledger.bcasts(sid, mt) > 0 })
+			first := c9wait
+			if kind == "ekeygen" {
+				first = 150 * time.Second // safe-prime generation inside Party.Start
+			}
+			ran = waitUntil(first, func() bool { return nd.ledger.bcasts(sid, mt) > 0 })
 			for last, since := nd.ledger.bcasts(sid, mt), time.Now(); time.Since(since) < 400*time.Millisecond; {
 				time.Sleep(5 * time.Millisecond)
 				if n := nd.ledger.bcasts(sid, mt); n != last {
@@ -610,9 +614,10 @@ func init() {
 var c10kinds = []string{"ekeygen", "fkeygen", "eresharing", "fresharing", "esigning", "fsigning"}
 
 func genC10(g *G) {
-	fulls := []string{"esigning", "fsigning", "fkeygen"}
+	fulls := []string{"esigning", "fsigning", "fkeygen", "eresharing", "fresharing"}
 	if g.Thorough() {
 		fulls = c10kinds
+		c10prefetch("cell", c10cellRun, "ekeygen", "failed")
 	}
 	for _, k := range fulls {
 		c10prefetch("full", c10fullRun, k)
@@ -622,8 +627,8 @@ func genC10(g *G) {
 	}
 	for _, k := range c10kinds {
 		for _, oc := range []string{"refused", "silent", "gto", "cancel", "rejected", "failed", "noshare"} {
-			if oc == "failed" && k == "ekeygen" {
-				continue // safe-prime generation inside Party.Start (tens of seconds): see C10.full in the thorough tier
+			if oc == "failed" && k == "ekeygen" && !g.Thorough() {
+				continue // safe-prime generation inside Party.Start (tens of seconds): thorough tier only
 			}
 			if oc == "noshare" && !strings.HasSuffix(k, "signing") {
 				continue // only the signing constructors need an existing share
